@@ -277,6 +277,27 @@ def _slice_routes(mesh, orc):
     ]
 
 
+class _SlicedRec:
+    """dedupes consequences: a clause that already fails on a route with nothing built on the source is not reported again
+    for the other pre-states of that route, and 'all_incidence' only if no single table produced the same failure"""
+
+    def __init__(self, rec):
+        self.rec, self.failed = rec, set()
+
+    def check(self, ok, clause, scenario, *a, **k):
+        if ok:
+            return self.rec.check(True, clause, scenario, *a, **k)
+        _, route, pre = scenario.split(":", 2)
+        pre = pre[len("source_had_"):]
+        implied = (clause, route, "nothing") in self.failed or (
+            pre == "all_incidence" and any(c == clause and r == route and p != "all_incidence" for c, r, p in self.failed))
+        self.failed.add((clause, route, pre))
+        if implied:
+            self.rec.cases += 1
+            return False
+        return self.rec.check(False, clause, scenario, *a, **k)
+
+
 def check_sliced(rec, mesh, orc, pres):
     """C03 on grids obtained by slicing: the incidence tables of the SLICE are exact for the slice's own face-node table,
     whatever was built on / shipped with the source grid before (no table with the source's numbering may survive)"""
@@ -328,6 +349,7 @@ def _sliced_pass(rec, tier, seed, distinct):
     if tier == "thorough":
         ms += [m for m in mg.random_meshes(seed * 31 + 7, 12) if m["n_face"] >= 3]
     n = 0
+    rec = _SlicedRec(rec)
     for i, m in enumerate(ms):
         orc = Oracle(m["faces"], m["n_node"])
         if not orc.manifold:
